@@ -474,6 +474,75 @@ theorem run_dead (T : Tables) (s : St) (evs : List Ev) (h : s.err ≠ none) : ru
   | nil => rfl
   | cons ev evs ih => simp only [run, List.foldl_cons] at ih ⊢; rw [step_dead T s ev h]; exact ih
 
+/-! ## the marker scan -/
+
+/-- the name the remote end must have sent for strict mode (`kex-strict-{c|s}-v00@openssh.com`) -/
+def expectedMarker (server : Bool) : String :=
+  if server then "kex-strict-c-v00@openssh.com" else "kex-strict-s-v00@openssh.com"
+
+/-- a KEXINIT without any `kex-strict-*` name leaves the agreed mode alone -/
+theorem scanMarkers_no_marker (sv adv : Bool) (names : List String) (acc : Option String × Bool)
+    (h : ∀ a ∈ names, a.startsWith "kex-strict-" = false) : (scanMarkers sv adv names acc).2 = acc.2 := by
+  induction names generalizing acc with
+  | nil => rfl
+  | cons a as ih =>
+    obtain ⟨ei, ag⟩ := acc
+    have ha := h a (by simp)
+    have has : ∀ b ∈ as, b.startsWith "kex-strict-" = false := fun b hb => h b (by simp [hb])
+    unfold scanMarkers
+    by_cases he : a.startsWith "ext-info-" = true
+    · simp only [he, if_true]; exact ih _ has
+    · simp only [he, Bool.false_eq_true, if_false, ha]; exact ih _ has
+
+/-- a KEXINIT whose only `kex-strict-*` names are the expected marker keeps strict mode on (if we offer it) -/
+theorem scanMarkers_expected_marker (sv : Bool) (names : List String) (acc : Option String × Bool)
+    (hacc : acc.2 = true)
+    (h : ∀ a ∈ names, a.startsWith "kex-strict-" = true → a = expectedMarker sv) :
+    (scanMarkers sv true names acc).2 = true := by
+  induction names generalizing acc with
+  | nil => exact hacc
+  | cons a as ih =>
+    obtain ⟨ei, ag⟩ := acc
+    have has : ∀ b ∈ as, b.startsWith "kex-strict-" = true → b = expectedMarker sv :=
+      fun b hb => h b (by simp [hb])
+    unfold scanMarkers
+    by_cases he : a.startsWith "ext-info-" = true
+    · simp only [he, if_true]; exact ih _ hacc has
+    · simp only [he, Bool.false_eq_true, if_false]
+      by_cases hk : a.startsWith "kex-strict-" = true
+      · simp only [hk, if_true]
+        refine ih _ ?_ has
+        have := h a (by simp) hk
+        simp only [expectedMarker] at this
+        simp [this]
+      · simp only [hk, Bool.false_eq_true, if_false]; exact ih _ hacc has
+
+/-- a KEXINIT received in an established session (a re-exchange, started by either side): if it is accepted, the
+agreed strict mode afterwards is what the marker scan makes of the mode agreed before -/
+theorem rekey_kexinit_strict (T : Tables) (hT : KexTables T) (s : St) (hact : s.active = true) (he : s.err = none)
+    (hdone : s.initialKexDone = true) (hexp : s.expected = []) (p : Bytes) (x : Ext)
+    (hok : (step T s (.recv MSG_KEXINIT p x)).err = none) :
+    (step T s (.recv MSG_KEXINIT p x)).agreedStrict
+      = (scanMarkers s.server s.advertiseStrict x.kexNames (none, s.agreedStrict)).2 := by
+  have hstep : step T s (.recv MSG_KEXINIT p x) = negotiateKeys (bump s MSG_KEXINIT) s.seqIn x := by
+    simp only [step, hact, he, Option.isNone_none, and_self, if_true, recv, hdone, not_true_eq_false, and_false,
+      if_false, body, afterExpected, bump, hexp, ne_eq, MSG_KEXINIT, MSG_IGNORE, MSG_DISCONNECT, MSG_DEBUG,
+      Nat.reduceEqDiff]
+    exact dispatch_kexinit T hT _ _ _ _
+  rw [hstep] at hok ⊢
+  unfold negotiateKeys at hok ⊢
+  obtain ⟨h3, e3⟩ := andThen_ok hok
+  rw [e3] at hok ⊢
+  have k3 := ensureLocalKexInit_ok h3
+  generalize ensureLocalKexInit (bump s MSG_KEXINIT) = s3 at *
+  obtain ⟨e, _, _, k4⟩ := parseKexInit_ok hok
+  have g3 := k3
+  simp only [St.kv, KV.mk.injEq, bump] at g3
+  obtain ⟨_, _, q_strict, _, _, _, _, _, _, q_server, q_adv⟩ := g3
+  have := congrArg KV.strict k4
+  simp only [St.kv] at this
+  rw [this, q_server, q_adv, q_strict]
+
 /-! ## the first step that sets `initial_kex_done` -/
 
 /-- the states around the first step of a run after which `initial_kex_done` is set -/
